@@ -5,6 +5,16 @@
 pub uninterp spec fn str_cmp_spec(a: Seq<char>, b: Seq<char>) -> Ordering;
 pub uninterp spec fn parse_f64_spec(s: Seq<char>) -> Option<f64>;
 pub uninterp spec fn f64_total_cmp_spec(a: f64, b: f64) -> Ordering;
+/// T-std: both orders are reflexive (`Ord for str`: `a.cmp(a) == Equal`; `f64::total_cmp` is a total
+/// order, so `x.total_cmp(&x) == Equal` for every x, NaN included).
+#[verifier::external_body]
+pub proof fn axiom_str_cmp_reflexive(a: Seq<char>)
+    ensures str_cmp_spec(a, a) == Ordering::Equal
+{}
+#[verifier::external_body]
+pub proof fn axiom_f64_total_cmp_reflexive(x: f64)
+    ensures f64_total_cmp_spec(x, x) == Ordering::Equal
+{}
 pub uninterp spec fn to_lowercase_spec(s: Seq<char>) -> Seq<char>;
 
 /// E13: `a.cmp(b)` on &str (Ord::cmp is accepted by Verus but unspecified)
